@@ -21,11 +21,16 @@ static void build2(void) {
   static int built2; if (built2) return; built2 = 1; build();
   for (int tier = 0; tier < 2; tier++) for (int W = 1; W <= 2; W++) for (int n = 2; n <= (tier ? 4 : 3); n++)
     if (NP[tier] < MAXP) { prog_t * p = &P[tier][NP[tier]++]; p->n = n; p->order = 0; p->W = W; p->K = n == 2 ? 2 : 1; p->relay = 2; }
+  /* relay 3: the uncondition variable is a local variable of the waiter (as in the library's own use of the primitive): once the waiter has
+     been resumed the variable's memory is the waiter's again */
+  for (int tier = 0; tier < 2; tier++) for (int W = 1; W <= 2; W++) for (int n = 1; n <= 2; n++)
+    if (NP[tier] < MAXP) { prog_t * p = &P[tier][NP[tier]++]; p->n = n; p->order = 0; p->W = W; p->K = tier ? 3 : 2; p->relay = 3; }
 }
 static int nprogs(int tier) { build2(); return NP[tier]; }
 static void config(int tier, int prog, int * W, int * K) { build2(); *W = P[tier][prog].W; *K = P[tier][prog].K; }
 static void describe(int tier, int prog, char * b, size_t n) { build2(); prog_t * p = &P[tier][prog];
-  if (p->relay == 2) snprintf(b, n, "uncond: one waiter, %d rendezvous, each signalled by a fresh detached thread that ends right after the signal", p->n);
+  if (p->relay == 3) snprintf(b, n, "uncond on the waiter's stack: %d rendezvous, the waiter re-uses the variable's memory right after each wake-up", p->n);
+  else if (p->relay == 2) snprintf(b, n, "uncond: one waiter, %d rendezvous, each signalled by a fresh detached thread that ends right after the signal", p->n);
   else if (p->relay) snprintf(b, n, "uncond relay: one signaler, two alternating waiters, %d rendezvous on one variable", p->n);
   else snprintf(b, n, "uncond SPSC hand-off of %d items, %s created first", p->n, p->order ? "consumer" : "producer"); }
 enum { ST_FULL = 1, ST_SLEEPING = 2 };
@@ -127,6 +132,37 @@ static void run_detached_signalers(void) {
   h_uncond_epilogue(&u);
   mv_finish();
 }
+/* relay 3: uncondition variable on the waiter's stack */
+static myth_uncond_t * volatile st_u[4]; static volatile long st_flag[4];
+static void __attribute__((noinline)) st_one_round(int r) {
+  volatile unsigned long frame[8];                     /* the variable lives among the waiter's locals */
+  myth_uncond_t * uu = (myth_uncond_t *)&frame[2];
+  h_uncond_init(uu);
+  mv_point(&st_u[r], sizeof(void *)); st_u[r] = uu;
+  mv_point(&st_flag[r], sizeof(long));
+  if (__sync_bool_compare_and_swap(&st_flag[r], 0, 2)) myth_uncond_wait(uu);
+  /* resumed (or never slept): from here on this memory is an ordinary local again */
+  for (int i = 0; i < 8; i++) frame[i] = 0xF00D000000000000UL + (unsigned long)(r * 16 + i);
+  myth_yield();
+  for (int i = 0; i < 8; i++) MV_CHECK(frame[i] == 0xF00D000000000000UL + (unsigned long)(r * 16 + i), "a local of the resumed waiter changed (word %d holds %#lx): the signaller wrote to the uncondition variable after handing the waiter back", i, frame[i]);
+}
+static void * st_waiter(void * a) { (void)a; for (int r = 0; r < cur->n; r++) st_one_round(r); return (void *)1; }
+static void * st_signaler(void * a) {
+  (void)a;
+  for (int r = 0; r < cur->n; r++) {
+    while (!st_u[r]) mv_wait_until_changed(&st_u[r], sizeof(void *));
+    mv_point(&st_flag[r], sizeof(long));
+    long o = __sync_val_compare_and_swap(&st_flag[r], 0, 1);
+    if (o == 2) { mv_cover(1); mv_cover(2); myth_uncond_signal(st_u[r]); mv_cover(0); }
+  }
+  return 0;
+}
+static void run_stack_uncond(void) {
+  myth_thread_t w = myth_create(st_waiter, 0), s = myth_create(st_signaler, 0); void * r = 0;
+  myth_join(s, 0); myth_join(w, &r); MV_CHECK(r == (void *)1, "waiter delivered %p", r);
+  mv_obs("stack uncond n=%d", cur->n);
+  mv_finish();
+}
 static void run_relay(void) {
   h_uncond_init(&u);
   myth_thread_t w0 = myth_create(relay_waiter, (void *)0), w1 = myth_create(relay_waiter, (void *)1), sg = myth_create(relay_signaler, 0);
@@ -141,6 +177,7 @@ static void run(int tier, int prog) {
   build2(); cur = &P[tier][prog];
   mv_start(cur->W);
   h_maybe_custom_steal(prog, cur->W);
+  if (cur->relay == 3) { run_stack_uncond(); return; }
   if (cur->relay == 2) { run_detached_signalers(); return; }
   if (cur->relay) { run_relay(); return; }
   h_uncond_init(&u);
